@@ -332,9 +332,7 @@ class Codec:
                 return (None, frame_end, None)
             tag, value = toks
 
-            try:
-                int(tag)
-            except ValueError:
+            if not (tag.isascii() and tag.isdigit()):
                 # FIXMessage.set() would refuse it, drop this frame only
                 assert silent, f"non-integer tag {m}"
                 return (None, parsed_length, None)
